@@ -2,6 +2,8 @@
 pub mod prng;
 pub mod refmath;
 pub mod toy;
+pub mod airfam;
+pub mod coinrec;
 
 use std::fmt::Write as _;
 
